@@ -2,6 +2,7 @@ package main
 
 import (
 	"fmt"
+	"go/token"
 	"go/types"
 	"sort"
 	"strings"
@@ -181,6 +182,13 @@ func runC15(r *Run) {
 					ls.Instance(fnName(fn)+"|ctor|"+a.Field.Name(), false, nil)
 					continue
 				}
+				if a.Field == m.Table && a.Kind == "store" {
+					// the table as a whole is replaced after construction: every registered transaction is dropped
+					// without being completed, and a Start in progress mistakes the loss for a completion
+					ls.Instance(fnName(fn)+"|table replaced", true, nil)
+					ls.Violation(fn, instrPos(a.In), "Client."+a.Field.Name()+" replaced after construction", "the transaction table is assigned as a whole outside construction: entries vanish without their handler being called, and a Start whose rollback no longer finds its entry reports success although nothing was sent (on a closed client: nil instead of a closed error)")
+					continue
+				}
 				held := li.Held(a.In)
 				mode := held[muxClass(a.Base)]
 				ok := mode == "W" || (mode == "R" && !a.isWrite())
@@ -326,6 +334,13 @@ func runC15(r *Run) {
 		}
 	}
 	co.Done()
+
+	// ---- the result of Close carries both errors
+	ce := r.Rule("C15.closeerr", "every CloseErr that Close returns holds the agent's Close result in AgentErr and the connection's Close result (nil when the connection is not owned) in ConnectionErr, and nil is returned only when both are nil", 1)
+	if m.Close != nil {
+		checkCloseErr(r, ce, m)
+	}
+	ce.Done()
 
 	jn := r.Rule("C15.join", "every go statement of the library is preceded by Add on a WaitGroup, its function defers Done on it, and the owner's Close waits for it on every path after the stop signal; Client.Close also closes the collector and the agent on every path after setting closed", 4)
 	checkJoin(r, jn, m)
@@ -768,4 +783,139 @@ func checkGate(r *Run, rc *RuleCtx, m *clientModel) {
 		})
 		rc.Instance(fnName(f)+"|delegates", true, nil)
 	}
+}
+
+// checkCloseErr: Client.Close (normalised) builds its CloseErr from the two close results.
+func checkCloseErr(r *Run, rc *RuleCtx, m *clientModel) {
+	p := r.P
+	fn := m.Close
+	ceT := p.Named("CloseErr")
+	if ceT == nil {
+		rc.Fail("CloseErr", "type not found")
+		return
+	}
+	fAgent, fConn := FieldVar(ceT, "AgentErr"), FieldVar(ceT, "ConnectionErr")
+	if fAgent == nil || fConn == nil {
+		rc.Fail("CloseErr fields", "AgentErr / ConnectionErr not found")
+		return
+	}
+	var agentClose, connClose ssa.Value
+	eachInstr(fn, func(b *ssa.BasicBlock, i int, in ssa.Instruction) {
+		if v, ok := in.(ssa.Value); ok {
+			if ifaceCallOnField(in, m.Agent, "Close") {
+				agentClose = v
+			}
+			if ifaceCallOnField(in, m.Conn, "Close") {
+				connClose = v
+			}
+		}
+	})
+	if agentClose == nil || connClose == nil {
+		rc.Fail("Close", "agent or connection close call not found in Client.Close")
+		return
+	}
+	// v is the close result r, possibly merged with nil (the close is conditional)
+	var isResult func(v ssa.Value, r ssa.Value, depth int) bool
+	isResult = func(v ssa.Value, r ssa.Value, depth int) bool {
+		if depth > 6 {
+			return false
+		}
+		v = deref(v)
+		if v == r {
+			return true
+		}
+		if ph, ok := v.(*ssa.Phi); ok {
+			found := false
+			for _, e := range ph.Edges {
+				if isNilConst(e) {
+					continue
+				}
+				if !isResult(e, r, depth+1) {
+					return false
+				}
+				found = true
+			}
+			return found
+		}
+		return false
+	}
+	n := 0
+	eachInstr(fn, func(b *ssa.BasicBlock, i int, in ssa.Instruction) {
+		al, ok := in.(*ssa.Alloc)
+		if !ok {
+			return
+		}
+		pt, ok := al.Type().(*types.Pointer)
+		if !ok || !types.Identical(pt.Elem(), ceT) {
+			return
+		}
+		n++
+		got := map[*types.Var]ssa.Value{}
+		for _, ref := range *al.Referrers() {
+			if fa, ok := ref.(*ssa.FieldAddr); ok {
+				for _, u := range *fa.Referrers() {
+					if st, ok := u.(*ssa.Store); ok && st.Addr == ssa.Value(fa) {
+						got[fieldOfAddr(fa)] = st.Val
+					}
+				}
+			}
+		}
+		rc.Instance(fmt.Sprintf("%s|CloseErr@b%d", fnName(fn), b.Index), true, map[string]string{"fn": fnName(fn), "AgentErr": exprCanon(got[fAgent]), "ConnectionErr": exprCanon(got[fConn])})
+		if v := got[fAgent]; v == nil || !isResult(v, agentClose, 0) {
+			rc.Violation(fn, instrPos(al), "CloseErr without the agent's error", "the CloseErr built here does not carry the result of closing the agent")
+		}
+		if v := got[fConn]; v == nil || !isResult(v, connClose, 0) {
+			rc.Violation(fn, instrPos(al), "CloseErr without the connection's error", "the CloseErr built here does not carry the result of closing the connection: when both closes fail the caller never learns that the connection is still open")
+		}
+	})
+	if n == 0 {
+		rc.Fail("Close", "no CloseErr is built in Client.Close")
+		return
+	}
+	// nil only when both results are nil
+	q := &PathQuery{P: p, Fn: fn}
+	rep := map[*ssa.Return]bool{}
+	q.AtReturn = func(ret *ssa.Return, st uint64, c *PathCtx) {
+		if !instrDominates(agentClose.(ssa.Instruction), ret) || len(ret.Results) == 0 || c.NilState(ret.Results[0]) == -1 {
+			return
+		}
+		agentNil, connNil := false, false
+		for _, pc := range c.PathConds() {
+			bo, ok := pc.Cond.(*ssa.BinOp)
+			if !ok || (bo.Op != token.EQL && bo.Op != token.NEQ) {
+				continue
+			}
+			x := bo.X
+			if isNilConst(x) {
+				x = bo.Y
+			} else if !isNilConst(bo.Y) {
+				continue
+			}
+			isNil := (bo.Op == token.EQL) == pc.Val
+			if !isNil {
+				continue
+			}
+			if isResult(x, agentClose, 0) {
+				agentNil = true
+			}
+			if isResult(x, connClose, 0) {
+				connNil = true
+			}
+		}
+		// the connection result may be absent on this path (connection not owned): then its merged value is nil
+		if !connNil {
+			visited := false
+			for _, bi := range c.blocks {
+				if bi == connClose.(ssa.Instruction).Block().Index {
+					visited = true
+				}
+			}
+			connNil = !visited
+		}
+		if (!agentNil || !connNil) && !rep[ret] {
+			rep[ret] = true
+			rc.ViolationPath(fn, instrPos(ret), "nil returned without both results being nil", "Close reports success on a path where the agent's or the connection's Close may have failed", c.Witness(fn, ret))
+		}
+	}
+	q.Run()
 }
